@@ -1069,7 +1069,7 @@ def make_cases(pid, tier, seed):
         # every third configuration additionally with the zero-cotangent outer function
         extra = []
         for k, c in enumerate(out):
-            if k % 3 == 0 or c["ns"] == "linalg":
+            if k % 3 == 0 or c["ns"] == "linalg" or (c.get("layout") and "order" in c["kwargs"]):
                 c2 = dict(c)
                 c2["outer"] = "quad0"
                 extra.append(c2)
@@ -1083,7 +1083,7 @@ def make_cases(pid, tier, seed):
             k = (c["prim"], c["form"], c.get("outer"), bool(c.get("joint")))
             seen[k] = seen.get(k, 0) + 1
             # random (seeded) thinning: a fixed stride aliases with the periodic structure of the generators
-            if seen[k] <= 6 or sel.uniform() < 0.34 or (c.get("joint") and c.get("tags")):
+            if seen[k] <= 6 or sel.uniform() < 0.34 or (c.get("joint") and c.get("tags")) or (c.get("layout") and "order" in c["kwargs"] and c.get("outer")):
                 keep.append(c)
         out = keep
     return out
